@@ -75,7 +75,7 @@ func init() {
 		Title: "defaults are applied with the declared literal and never override",
 		Text: "For every manifest field with a defaultValue: populateLocalDefaultValues of its record assigns that field only under `field == nil`, and the assigned value is — for primitives, enums, typerefs — a constant equal to the manifest literal, " +
 			"for bytes/fixed the same byte sequence, and for records, unions, arrays, maps a decode of a string literal JSON-equal to the manifest's default (an empty container only for [] / {}).",
-		Props: []string{"C13"},
+		Props: []string{"C13", "C01"},
 		Floor: map[string]int{"corpus": 15},
 		Run:   runR131,
 	})
@@ -84,7 +84,7 @@ func init() {
 		Title: "decoding and construction reach every default, including inherited ones",
 		Text: "For every record whose transitive include closure (or itself) declares a default: every success path of UnmarshalRestLi calls populateLocalDefaultValues of each record of that closure that declares one, after the fields were read; " +
 			"New<T>WithDefaultValues exists and does the same.",
-		Props: []string{"C13"},
+		Props: []string{"C13", "C01"},
 		Floor: map[string]int{"corpus": 8},
 		Run:   runR132,
 	})
@@ -92,7 +92,7 @@ func init() {
 		ID: "R13.3", Generated: true, GeneratedRoot: true,
 		Title: "default values are never shared between instances",
 		Text:  "populateLocalDefaultValues references no package-level variable: every assigned value is the address of a local, new(…), a composite literal or the result of a decode into a fresh target.",
-		Props: []string{"C13"},
+		Props: []string{"C13", "C01"},
 		Floor: map[string]int{"corpus": 8},
 		Run:   runR133,
 	})
